@@ -1,5 +1,4 @@
 package props
 
-func stackChild()  {}
 func oracleChild() {}
 func concChild()   {}
